@@ -495,6 +495,7 @@ func main() {
 
 		return
 	}
+	var cfgCorpus []cfgCase
 	for _, f := range o.CorpusFiles() {
 		var probe map[string]interface{}
 		switch cq.LoadReplay(f, &probe) {
@@ -509,7 +510,7 @@ func main() {
 		case "c16cfg":
 			var c cfgCase
 			cq.LoadReplay(f, &c)
-			cfg.Cases = append(cfg.Cases, runCfg(c, &fails).toCase("corpus"))
+			cfgCorpus = append(cfgCorpus, c) // run with the cfg set, after the older sets
 		}
 	}
 	n := o.Scale(1500, 30000)
@@ -600,6 +601,9 @@ func main() {
 		_, cfgHook := interface{}(probeBWE).(pacerTargeter)
 		_ = probeBWE.Close()
 		extra["pacer_target_hook_present"] = cfgHook
+		for _, c := range cfgCorpus {
+			cfg.Cases = append(cfg.Cases, runCfg(c, &fails).toCase("corpus"))
+		}
 		ncfg := o.Scale(320, 6000)
 		cres := make([]cfgCase, ncfg)
 		cbs := make([][]string, ncfg)
